@@ -41,8 +41,7 @@ ASSUMPTIONS = [
     "not generated (undocumented outcomes): break/continue inside buffering blocks, loop else branches or across macros; "
     "filter-block arguments that read variables; loop filters that can raise or read namespaces; loop.* / caller across "
     "macro and call-block boundaries; macros stored in namespaces",
-    "known finding excluded by construction: break/continue in the body of a loop that has an else branch; identifiers "
-    "that are not NFKC-stable (F1)",
+    "known finding excluded by construction: identifiers that are not NFKC-stable (F1)",
     "errors are compared by family: UndefinedError / TypeError / ValueError / other TemplateRuntimeError",
 ]
 
@@ -92,21 +91,6 @@ def _unstable(rename):
     return [v for v in (rename or {}).values() if not G.nfkc_stable(v)]
 
 
-def _has_else_loopctl(prog):
-    """The known finding's input class: break/continue belonging to a loop that has an else branch."""
-
-    def own_ctl(body):
-        for s in body:
-            if s[0] in ("break", "continue"):
-                return True
-            for kind, b in G.sub_bodies(s):
-                if kind in ("if", "with", "filter", "setblock", "autoescape") and own_ctl(b):
-                    return True
-        return False
-
-    return any(s[0] == "for" and s[4] is not None and own_ctl(s[3]) for s in G.walk(prog))
-
-
 def _check(case, allow_known=False):
     st = _setup()
     prog, datas, rename = case["prog"], case["data"], case.get("rename") or None
@@ -115,8 +99,6 @@ def _check(case, allow_known=False):
     if not allow_known:
         if _unstable(rename):
             raise core.Excluded()  # F1
-        if _has_else_loopctl(prog):
-            raise core.Excluded()  # loop else + break/continue
     src = G.print_program(prog)
     rsrc = G.print_program(prog, rename) if rename else None
     exp = [I.interpret_ex(prog, d) for d in datas]
@@ -126,42 +108,31 @@ def _check(case, allow_known=False):
     for r in exp:
         labels.update(r.labels)
         labels.add("ref_" + r.kind)
-    first = None  # outputs of the first environment, per data
-    for en in ENV_NAMES:
+    # Every environment renders the original and/or the renamed program; all of them must print the same thing:
+    # the reference output when the interpreter decides the data, else whatever the first rendering printed.
+    # The default environment renders both spellings, the other three alternate (a pure function of the case).
+    want = [(r.kind, r.value) if r.kind != "declined" else None for r in exp]
+    origin = ["the reference interpreter expects"] * len(datas)
+    flip = len(src) % 2
+    for k, en in enumerate(ENV_NAMES):
         env = st["envs"][en]
-        got = None
-        if baseline:
-            t = env.from_string(src)
-            got = [_render(t, d) for d in datas]
-            for i, (g, r) in enumerate(zip(got, exp)):
-                if r.kind == "declined":
-                    continue
-                want = (r.kind, r.value)
-                if g != want:
-                    raise core.Violation(
-                        "reference interpreter expects %r, %s environment gives %r\n template: %s\n data: %r"
-                        % (want, en, g, src, datas[i]), env=en)
-            if first is None:
-                first = got
-            elif got != first:
-                i = [a != b for a, b in zip(got, first)].index(True)
-                raise core.Violation(
-                    "environments disagree: default gives %r, %s gives %r\n template: %s\n data: %r"
-                    % (first[i], en, got[i], src, datas[i]), env=en)
-        if rename:
-            tr = env.from_string(rsrc)
+        variants = []
+        if baseline and (k == 0 or not rename or (k + flip) % 2 == 0):
+            variants.append(("original", src, None))
+        if rename and (k == 0 or not baseline or (k + flip) % 2 == 1):
+            variants.append(("renamed", rsrc, rename))
+        for vname, vsrc, vren in variants:
+            t = env.from_string(vsrc)
             for i, d in enumerate(datas):
-                g = _render(tr, G.rename_data(d, rename))
-                if got is not None:
-                    want, what = got[i], "the original program prints"
-                elif exp[i].kind != "declined":
-                    want, what = (exp[i].kind, exp[i].value), "the reference interpreter expects"
-                else:
-                    continue
-                if g != want:
+                g = _render(t, G.rename_data(d, vren) if vren else d)
+                if want[i] is None:
+                    want[i] = g
+                    origin[i] = "the %s program in the %s environment gives" % (vname, en)
+                elif g != want[i]:
                     raise core.Violation(
-                        "renaming changed the output (%s environment): %s %r, renamed program gives %r\n original: %s\n"
-                        " renamed:  %s\n rename: %r\n data: %r" % (en, what, want, g, src, rsrc, rename, datas[i]), env=en)
+                        "%s %r, the %s program in the %s environment gives %r\n original: %s\n%s data: %r"
+                        % (origin[i], want[i], vname, en, g, src,
+                           " renamed:  %s\n rename: %r\n" % (rsrc, rename) if vren else "", datas[i]), env=en, variant=vname)
     if rename:
         for v in rename.values():
             labels.add("rn_" + G.IDENT_CLASS_OF.get(v, "own"))
@@ -278,7 +249,7 @@ def run_shard(spec, ctx):
     core.enum_shard(core.sliced(alias_cases(all_shapes=not ctx.quick), ctx.index, ctx.nshards), check_case, ctx, rec=rec)
     if rec.violations:
         return rec
-    n = ctx.pick(1400, 22000)
+    n = ctx.pick(800, 7000)
     small = n // 2
     core.hyp_shard(case_strategy(4, 25), check_case, ctx, small, rec=rec, tag="small")
     if rec.violations:
